@@ -9,7 +9,7 @@ from ..runner import Outcome, Part
 
 ID = "C11"
 TITLE = "Duct-wall temperatures solve steady 1-D conduction with the stated BCs"
-TECHNIQUE = "property-based testing (Hypothesis): the real _calc_duct_temp of rodded and low-fidelity regions driven with generated film coefficients, coolant / bypass / gap temperatures and wall heating; the reported surface and mid-wall temperatures are checked against the conduction equation, flux continuity and the overall flux balance"
+TECHNIQUE = "property-based testing (Hypothesis): the real _calc_duct_temp of rodded and low-fidelity regions driven with generated film coefficients, coolant / bypass / gap temperatures and wall heating; the reported surface and mid-wall temperatures are checked against the conduction equation, flux continuity and the overall flux balance; the stored wall state of generated adiabatic sweeps is checked against the zero-flux solution at every step"
 RULE = ("regions come from real generated assemblies (2-5 rings, 1-3 ducts of unequal thickness, low-fidelity simple / "
         "6node regions, constant or T-dependent duct material); the state handed to _calc_duct_temp is generated: film "
         "coefficients 1e2..1e6 per subchannel type and per bypass gap, non-uniform coolant, bypass and gap temperatures, "
